@@ -7,6 +7,7 @@ import H2V.Lemmas.ConnCountsPTac
 -/
 namespace H2V.Lemmas.ConnCountsP
 open H2V H2V.Model H2V.Model.Conn
+variable {ρ : Bool}
 
 -- ===================================================================== look-ups after the elementary updates
 
@@ -255,7 +256,7 @@ theorem cm_incReset {c c' : Counts} (h : c.incNumResetStreams = some c') : CM c 
   · cases h; exact ⟨rfl, rfl, rfl, rfl, rfl, Nat.le_refl _⟩
   · cases h
 
-theorem Ev.mono {s s' : Streams} (h : Ev s s') : Mono s s' := by
+theorem EvB.mono {s s' : Streams} (h : EvB ρ s s') : Mono s s' := by
   induction h with
   | refl s => exact Mono.refl s
   | trans _ _ ih1 ih2 => exact ih1.trans ih2
@@ -302,7 +303,7 @@ theorem Ev.mono {s s' : Streams} (h : Ev s s') : Mono s s' := by
     exact Mono.modStream _ k _ (fun _ h => h) (fun _ => rfl)
   | decNum k => exact Mono.decNumStreams _ _
 
-theorem Ev.panic_mono {s s' : Streams} (h : Ev s s') (hp : s'.panicked = none) : s.panicked = none := by
+theorem EvB.panic_mono {s s' : Streams} (h : EvB ρ s s') (hp : s'.panicked = none) : s.panicked = none := by
   cases hs : s.panicked with
   | none => rfl
   | some m =>
